@@ -32,8 +32,8 @@ theorem values_eq (l : Log) (hE : ∀ e ∈ l.entries, e.hash ≠ []) (hH : ∀ 
 theorem toJSONLog_eq (l : Log) :
     Generated.Go.toJSONLog l.entries (before l.sortFn) l.heads = jsonHeads l := by
   unfold Generated.Go.toJSONLog jsonHeads
-  simp only [hashes_fold, List.nil_append]
-  rfl
+  simp only [gohelper, hashes_fold, List.nil_append]
+  try rfl
 
 /-- **`ToSnapshot`, translated**: the head hashes in map order and the linearisation -/
 theorem toSnapshot_eq (l : Log) (hE : ∀ e ∈ l.entries, e.hash ≠ []) (hH : ∀ e ∈ l.heads, e.hash ≠ []) :
